@@ -6,7 +6,7 @@ protocol), C07 (forced path), C18 (handler balance, run-info order).
 from pyvc.dsl import *
 from pyvc.prims import implies
 
-Val = U('Val')
+Val = U('Val', plain=True)
 Handler = U('Handler')
 TypeU = U('Type')
 
